@@ -357,6 +357,7 @@ def run(ctx):
     outputs_are_truncated(ctx)
     number_text_is_terminated(ctx)
     serialised_records_are_filled_before_use(ctx)
+    no_pointer_into_a_temporary_is_kept(ctx)
 
 def _enclosing_case(db, f, node):
     """Names of the case labels of the innermost switch arm containing node (a stable site context)."""
@@ -836,3 +837,56 @@ def serialised_records_are_filled_before_use(ctx):
                        "`%s.%s` can reach this %s unassigned: the field is written to the database as it lies on the stack" % (vname, fld, callee_short(c)))
     ctx.floor("R14.10", "field x store obligations", n, 8)
 
+
+
+def _kept_temporaries(f):
+    out = []
+    cands = []
+    for y in f.walk():
+        t = assigned_target(y)
+        if t:
+            cands.append((y, t[1]))
+        if y.get("k") == "decls":
+            for dd in y["d"]:
+                if dd.get("init") is not None and (dd.get("t") or "").rstrip().endswith("*"):
+                    cands.append((y, dd["init"]))
+    for y, val in cands:
+        v = strip_casts(peel(val)) if val is not None else None
+        if v is None or v.get("k") != "call" or callee_short(v) not in ("c_str", "data") or "this" not in v:
+            continue
+        obj = v["this"]
+        o = obj
+        # see through copy-elision wrappers
+        while o is not None and o.get("k") in ("temp", "bind", "mat", "paren") and o.get("e") is not None:
+            o = o["e"]
+        o = strip_casts(o) if o is not None else None
+        if o is not None and o.get("k") in ("call", "ctor") and not (o.get("t") or "").rstrip().endswith("&"):
+            out.append((y, v))
+    return out
+
+
+def no_pointer_into_a_temporary_is_kept(ctx):
+    """R14.11: `p = f().c_str();` keeps a pointer into a std::string that dies at the end of the statement.  What the
+    pointer later shows is whatever the allocator or the stack put there: for short strings (stored inside the object)
+    bytes of the dead temporary's stack slot, different under every address-space layout.  The generators write such
+    pointers into the output (`_in_module_def`'s database_filename).  No assignment or pointer initialisation in the tools
+    takes c_str()/data() of a call result returned by value.  (Seed S11-C14.)"""
+    db = ctx.db
+    ctx.rule("R14.11", "in the tools no pointer is assigned or initialised from c_str()/data() of a temporary (a call result returned by value)")
+
+    class _P:
+        def walk(self):
+            return [{"k": "bin", "op": "=", "x": {"k": "mem", "n": "D::name", "b": {"k": "ref", "d": 1, "dk": "local"}},
+                     "y": {"k": "call", "f": "std::basic_string::c_str", "this": {"k": "call", "f": "Filename::get_basename", "t": "std::string", "a": []}, "a": []}}]
+    if len(_kept_temporaries(_P())) != 1:
+        ctx.broken("R14.11: the detector no longer recognises its own example")
+    n = 0
+    for f in db.functions:
+        if not any(d in f.file for d in ("/interrogate/", "/interrogatedb/", "/cppparser/")):
+            continue
+        n += 1
+        for y, v in _kept_temporaries(f):
+            ctx.ob("R14.11", "%s|%s@%s|not-a-temporary" % (f.name, show(v)[:40].replace(" ", ""), f.loc(y).split(":")[-1]), False, f.loc(y),
+                   "a pointer into `%s`, a temporary, outlives the statement" % show(v.get("this"))[:50])
+    ctx.ob("R14.11", "tools|no-pointer-into-a-temporary", True, "src", "%d functions examined" % n)
+    ctx.floor("R14.11", "functions examined", n, 800)
